@@ -68,6 +68,18 @@ CHECKS.update({
         "Packages generated from a grammar of declaration forms, statement bodies, expressions, decorators, class-body statements, special forms and well-/malformed docstrings are run through the real entry point under one of the 64 option combinations each; the run must finish with a parseable API file or reject with the documented error exactly when nothing is analysable. Failures are bucketed by root cause and minimised by parallel delta debugging on declaration chunks and lines.",
         "§5 C01",
     ),
+    "C03": (
+        "E1 package engine",
+        "property-based testing: Hypothesis-drawn package trees with re-exports against a ground-truth inventory (every public declaration exactly once, in an allowed container, nothing unknown emitted)",
+        "For generated package trees (private/public packages and modules, nested classes, all member kinds, enums, re-exports by name / alias / star / module, relative or absolute, to the own or an ancestor package) the multiset of declarations recovered from all stub files is compared in both directions with the inventory the ground truth derives from the property text.",
+        "§5 C03",
+    ),
+    "C04": (
+        "E1 package engine",
+        "property-based testing: the structure generator with privacy pools turned up; negative whole-output oracle (no private declaration in any stub) + API is_public flags against ground-truth publicity",
+        "Every declaration that is private by the stated convention (and not re-exported under a public name) must be absent from every stub under every name it could have, and the is_public flag of every class, function and attribute entry of the API JSON must equal the ground-truth publicity.",
+        "§5 C04",
+    ),
 })
 
 NOT_YET = "check not built yet in this session (work in progress, see DESIGN.md §9)"
